@@ -121,10 +121,6 @@ theorem absRx_ok (h : PInv P R y al) {it : Fr} {rest : List Fr} (hib : al.inbox 
 
 /-! ### the transmit side -/
 
-def isT : TxA → Bool
-  | .T _ _ _ => true
-  | _ => false
-
 /-- iterations the inner tx loop still needs -/
 def need (P : Par) (al : AL) : Nat :=
   if al.pend then 1 else
@@ -150,7 +146,7 @@ theorem PInv.push_dat (h : DirInv P.n P.bs' R al.tx al.fc (fcsOf al.inbox) (data
   refine ⟨?_, ?_, yp, yf⟩
   · show DirInv _ _ _ _ _ _ (dataOf y.inbox ++ dataOf (al.out ++ [Fr.dat k])) _ _
     rw [dataOf_append, ← List.append_assoc]; exact h
-  · show DirInv _ _ _ _ _ (fcsOf y.inbox + fcsOf (al.out ++ [Fr.dat k])) _ _ _
+  · show DirInv _ _ _ _ _ (fcsOf y.inbox + fcsOf (al.out ++ [Fr.dat k])) (dataOf al.inbox) al.rx al.pend
     rw [fcsOf_append]; simpa [fcsOf] using hi
 
 /-- what a step of the transmit state machine guarantees (`al`: before, mailbox empty, nothing pending) -/
@@ -161,9 +157,9 @@ structure FsmPost (P : Par) (R : Nat) (y al al' : AL) (out : Option Fr) (imm : B
   inbox  : al'.inbox = al.inbox
   notI   : al'.tx ≠ .I
   mule   : mu P al' ≤ mu P al
-  immT   : imm = true → isT al'.tx = false ∧ isT al.tx = true ∧ out.isSome = true
+  immT   : imm = true → timeDriven al'.tx = false ∧ timeDriven al.tx = true ∧ out.isSome = true
   cont   : imm = false → out.isSome = true → need P al' < need P al
-  keepT  : isT al'.tx = true → isT al.tx = true
+  keepT  : timeDriven al'.tx = true → timeDriven al.tx = true
   doneD  : al'.tx = .D → al.tx = .D ∨ al'.done = true
   doneM  : al.done = true → al'.done = true
   strict : (al.tx = .I ∨ ∃ k j r, al.tx = .T k j r ∧ (P.z = true ∨ r < R)) → mu P al' < mu P al
@@ -184,29 +180,29 @@ theorem fsm_ok (h : PInv P R y al) (hp : al.pend = false) (hf : al.fc = false) :
     by_cases hn : P.n = 1
     · rw [if_pos hn]
       have ho' := ho.emit_sf hn
-      refine ⟨_, _, _, rfl, ⟨PInv.push_dat (by rw [List.append_assoc] at *; exact ho') hi yp yf, rfl, rfl, rfl,
-        by intro hh; cases hh, ?_, by intro hh; cases hh, ?_, by intro hh; cases hh, fun _ => Or.inr rfl,
-        fun _ => rfl, ?_, by intro hh; cases hh⟩⟩
+      refine ⟨_, _, _, rfl, ⟨PInv.push_dat (by simpa [List.append_assoc] using ho') hi yp yf, rfl, rfl, rfl,
+        (by intro hh; cases hh), ?_, (by intro hh; cases hh), ?_, (by intro hh; cases hh), fun _ => Or.inr rfl,
+        fun _ => rfl, ?_, (by intro hh; cases hh)⟩⟩
       · simp only [mu, sentOf, txW]; omega
       · intro _ _; simp [need]
       · intro _; simp only [mu, sentOf, txW]; omega
     · rw [if_neg hn]
       have ho' := ho.emit_ff hn
       have n1 := ho.n1
-      refine ⟨_, _, _, rfl, ⟨PInv.push_dat (by rw [List.append_assoc] at *; exact ho') hi yp yf, rfl, rfl, rfl,
-        by intro hh; cases hh, ?_, by intro hh; cases hh, ?_, by intro hh; cases hh, by intro hh; cases hh,
-        fun hd => hd, ?_, by intro hh; cases hh⟩⟩
+      refine ⟨_, _, _, rfl, ⟨PInv.push_dat (by simpa [List.append_assoc] using ho') hi yp yf, rfl, rfl, rfl,
+        (by intro hh; cases hh), ?_, (by intro hh; cases hh), ?_, (by intro hh; cases hh), (by intro hh; cases hh),
+        fun hd => hd, ?_, (by intro hh; cases hh)⟩⟩
       · simp only [mu, sentOf, txW]; omega
       · intro _ _; simp [need]
       · intro _; simp only [mu, sentOf, txW]; omega
   | W k r =>
-    refine ⟨_, _, _, rfl, ⟨⟨ho, hi, yp, yf⟩, rfl, rfl, rfl, by intro hh; cases hh, Nat.le_refl _,
-      by intro hh; cases hh, by intro _ hh; cases hh, fun hh => hh, by intro hh; cases hh, fun hd => hd, ?_, fun _ => rfl⟩⟩
+    refine ⟨_, _, _, rfl, ⟨⟨ho, hi, yp, yf⟩, rfl, rfl, rfl, (by intro hh; cases hh), Nat.le_refl _,
+      (by intro hh; cases hh), (by intro _ hh; cases hh), fun hh => hh, (by intro hh; cases hh), fun hd => hd, ?_, fun _ => rfl⟩⟩
     intro hh
     rcases hh with hh | ⟨_, _, _, hh, _⟩ <;> cases hh
   | D =>
-    refine ⟨_, _, _, rfl, ⟨⟨ho, hi, yp, yf⟩, rfl, rfl, rfl, by intro hh; cases hh, Nat.le_refl _,
-      by intro hh; cases hh, by intro _ hh; cases hh, fun hh => hh, fun _ => Or.inl rfl, fun hd => hd, ?_, fun _ => rfl⟩⟩
+    refine ⟨_, _, _, rfl, ⟨⟨ho, hi, yp, yf⟩, rfl, rfl, rfl, (by intro hh; cases hh), Nat.le_refl _,
+      (by intro hh; cases hh), (by intro _ hh; cases hh), fun hh => hh, fun _ => Or.inl rfl, fun hd => hd, ?_, fun _ => rfl⟩⟩
     intro hh
     rcases hh with hh | ⟨_, _, _, hh, _⟩ <;> cases hh
   | T k j r =>
@@ -218,9 +214,9 @@ theorem fsm_ok (h : PInv P R y al) (hp : al.pend = false) (hf : al.fc = false) :
       by_cases hl : k + 1 = P.n
       · rw [if_pos hl]
         have ho' := ho.emit_last hl
-        refine ⟨_, _, _, rfl, ⟨PInv.push_dat (by rw [List.append_assoc] at *; exact ho') hi yp yf, rfl, rfl, rfl,
-          by intro hh; cases hh, ?_, by intro hh; cases hh, ?_, by intro hh; cases hh, fun _ => Or.inr rfl,
-          fun _ => rfl, ?_, by intro hh; cases hh⟩⟩
+        refine ⟨_, _, _, rfl, ⟨PInv.push_dat (by simpa [List.append_assoc] using ho') hi yp yf, rfl, rfl, rfl,
+          (by intro hh; cases hh), ?_, (by intro hh; cases hh), ?_, (by intro hh; cases hh), fun _ => Or.inr rfl,
+          fun _ => rfl, ?_, (by intro hh; cases hh)⟩⟩
         · simp only [mu, sentOf, txW]; omega
         · intro _ _; simp only [need]; simp; omega
         · intro _; simp only [mu, sentOf, txW]; omega
@@ -228,22 +224,22 @@ theorem fsm_ok (h : PInv P R y al) (hp : al.pend = false) (hf : al.fc = false) :
         by_cases hb : P.bs' ≠ 0 ∧ j + 1 ≥ P.bs'
         · rw [if_pos hb]
           have ho' := ho.emit_block hl hb
-          refine ⟨_, _, _, rfl, ⟨PInv.push_dat (by rw [List.append_assoc] at *; exact ho') hi yp yf, rfl, rfl, rfl,
-            by intro hh; cases hh, ?_, fun _ => ⟨rfl, rfl, rfl⟩, by intro hh; cases hh, by intro hh; cases hh,
-            by intro hh; cases hh, fun hd => hd, ?_, by intro hh; cases hh⟩⟩
+          refine ⟨_, _, _, rfl, ⟨PInv.push_dat (by simpa [List.append_assoc] using ho') hi yp yf, rfl, rfl, rfl,
+            (by intro hh; cases hh), ?_, fun _ => ⟨rfl, rfl, rfl⟩, (by intro hh; cases hh), (by intro hh; cases hh),
+            (by intro hh; cases hh), fun hd => hd, ?_, (by intro hh; cases hh)⟩⟩
           · simp only [mu, sentOf, txW]; omega
           · intro _; simp only [mu, sentOf, txW]; omega
         · rw [if_neg hb]
           have ho' := ho.emit_more hl hb
-          refine ⟨_, _, _, rfl, ⟨PInv.push_dat (by rw [List.append_assoc] at *; exact ho') hi yp yf, rfl, rfl, rfl,
-            by intro hh; cases hh, ?_, by intro hh; cases hh, ?_, fun _ => rfl, by intro hh; cases hh,
-            fun hd => hd, ?_, by intro hh; cases hh⟩⟩
+          refine ⟨_, _, _, rfl, ⟨PInv.push_dat (by simpa [List.append_assoc] using ho') hi yp yf, rfl, rfl, rfl,
+            (by intro hh; cases hh), ?_, (by intro hh; cases hh), ?_, fun _ => rfl, (by intro hh; cases hh),
+            fun hd => hd, ?_, (by intro hh; cases hh)⟩⟩
           · simp only [mu, sentOf, txW]; omega
           · intro _ _; simp only [need]; simp; omega
           · intro _; simp only [mu, sentOf, txW]; omega
     · rw [if_neg hel]
-      refine ⟨_, _, _, rfl, ⟨⟨ho, hi, yp, yf⟩, rfl, rfl, rfl, by intro hh; cases hh, Nat.le_refl _,
-        by intro hh; cases hh, by intro _ hh; cases hh, fun hh => hh, by intro hh; cases hh, fun hd => hd, ?_,
+      refine ⟨_, _, _, rfl, ⟨⟨ho, hi, yp, yf⟩, rfl, rfl, rfl, (by intro hh; cases hh), Nat.le_refl _,
+        (by intro hh; cases hh), (by intro _ hh; cases hh), fun hh => hh, (by intro hh; cases hh), fun hd => hd, ?_,
         fun _ => rfl⟩⟩
       intro hh
       rcases hh with hh | ⟨k', j', r', hh, hz⟩
@@ -253,6 +249,419 @@ theorem fsm_ok (h : PInv P R y al) (hp : al.pend = false) (hf : al.fc = false) :
         rcases hz with hz | hz
         · simp [hz]
         · simp [hz]
+
+/-- what one `_process_tx` step guarantees (`al`: before; not both a pending Flow Control and a full mailbox) -/
+structure TxPost (P : Par) (R : Nat) (y al al' : AL) (out : Option Fr) (imm : Bool) : Prop where
+  inv    : PInv P R y (pushOut al' out)
+  pend   : al'.pend = false
+  inbox  : al'.inbox = al.inbox
+  mule   : mu P al' ≤ mu P al
+  pcase  : al.pend = true → al'.fc = al.fc ∧ al'.tx = al.tx ∧ imm = true ∧ al'.done = al.done
+  fc     : al.pend = false → al'.fc = false ∧ al'.tx ≠ .I
+  immT   : al.pend = false → imm = true → timeDriven al'.tx = false ∧ (timeDriven al.tx = true ∨ al.fc = true)
+  cont   : imm = false → out.isSome = true → need P al' < need P al
+  keepT  : al.pend = false → timeDriven al'.tx = true → timeDriven al.tx = true ∨ al.fc = true
+  doneD  : al'.tx = .D → al.tx = .D ∨ al'.done = true
+  doneM  : al.done = true → al'.done = true
+  strict : al.pend = false → (al.tx = .I ∨ (∃ k j r, al.tx = .T k j r ∧ (P.z = true ∨ r < R)) ∨ al.fc = true) →
+             mu P al' < mu P al
+
+theorem FsmPost.toTx {al al' : AL} {out : Option Fr} {imm : Bool} (h : FsmPost P R y al al' out imm)
+    (hp : al.pend = false) (hf : al.fc = false) : TxPost P R y al al' out imm :=
+  ⟨h.inv, h.pend, h.inbox, h.mule, (fun hh => by rw [hp] at hh; cases hh), fun _ => ⟨h.fc, h.notI⟩,
+    fun _ hi => ⟨(h.immT hi).1, Or.inl (h.immT hi).2.1⟩, h.cont, fun _ ht => Or.inl (h.keepT ht), h.doneD, h.doneM,
+    (fun _ hs => by
+      rcases hs with hs | hs | hs
+      · exact h.strict (Or.inl hs)
+      · exact h.strict (Or.inr hs)
+      · rw [hf] at hs; cases hs)⟩
+
+/-- **one `_process_tx` step of the abstract machine** succeeds and keeps the invariant -/
+theorem absTx_ok (h : PInv P R y al) (hpf : (al.pend && al.fc) = false) (hK : R ≤ P.kFc) :
+    ∃ al' out imm, absTx P R al = some (al', out, imm) ∧ TxPost P R y al al' out imm := by
+  obtain ⟨tx, fc, rx, pend, inbox, out, done⟩ := al
+  simp only [] at hpf
+  unfold absTx
+  cases pend with
+  | true =>
+    have hf : fc = false := by simpa using hpf
+    subst hf
+    obtain ⟨ho, hi, yp, yf⟩ := h
+    simp only [] at ho hi
+    obtain ⟨i, t, hrx, hi'⟩ := hi.serve
+    subst hrx
+    simp only [if_true]
+    refine ⟨_, _, _, rfl, ⟨⟨?_, ?_, yp, yf⟩, rfl, rfl, Nat.le_refl _, fun _ => ⟨rfl, rfl, rfl, rfl⟩,
+      (by intro hh; cases hh), (by intro hh; cases hh), (by intro hh; cases hh), (by intro hh; cases hh),
+      fun hd => Or.inl hd, fun hd => hd, (by intro hh; cases hh)⟩⟩
+    · show DirInv _ _ _ tx false (fcsOf inbox) (dataOf y.inbox ++ dataOf (out ++ [Fr.fc])) _ _
+      rw [dataOf_append]; simpa [dataOf] using ho
+    · show DirInv _ _ _ _ _ (fcsOf y.inbox + fcsOf (out ++ [Fr.fc])) (dataOf inbox) (.S i (some R)) false
+      rw [fcsOf_append]; simpa [fcsOf, Nat.add_assoc] using hi'
+  | false =>
+    simp only [Bool.false_eq_true, if_false]
+    have hho := h.out
+    simp only [] at hho
+    cases fc with
+    | false =>
+      -- mailbox empty: the state machine runs on the state as it is
+      have hmail : absMail P R { tx := tx, fc := false, rx := rx, pend := false, inbox := inbox, out := out, done := done }
+          = some tx := by
+        unfold absMail
+        cases tx with
+        | W k r => simp only []; rw [if_pos (by omega)]; simp
+        | I => simp
+        | D => simp
+        | T k j r => simp
+      rw [hmail]
+      simp only []
+      obtain ⟨al', o, imm, e, hpost⟩ := fsm_ok h rfl rfl
+      exact ⟨al', o, imm, e, hpost.toTx rfl rfl⟩
+    | true =>
+      obtain ⟨k, r, htx, -⟩ := hho.fc_W (Or.inl rfl)
+      subst htx
+      obtain ⟨hT, hf0, hp0⟩ := hho.absorb
+      have hmail : absMail P R { tx := .W k r, fc := true, rx := rx, pend := false, inbox := inbox, out := out, done := done }
+          = some (.T k 0 R) := by
+        unfold absMail
+        simp only []; rw [if_pos (by omega)]; simp
+      rw [hmail]
+      simp only []
+      have h0 : PInv P R y { tx := .T k 0 R, fc := false, rx := rx, pend := false, inbox := inbox, out := out, done := done } :=
+        ⟨hT, h.inn, h.yp, h.yf⟩
+      obtain ⟨al', o, imm, e, hpost⟩ := fsm_ok h0 rfl rfl
+      refine ⟨al', o, imm, e, ⟨hpost.inv, hpost.pend, hpost.inbox, ?_, (by intro hh; cases hh), fun _ => ⟨hpost.fc, hpost.notI⟩,
+        fun _ hi => ⟨(hpost.immT hi).1, Or.inr rfl⟩, ?_, fun _ _ => Or.inr rfl, ?_, hpost.doneM, ?_⟩⟩
+      · have := hpost.mule; simp only [mu, sentOf, txW] at *; omega
+      · intro hi ho'
+        have := hpost.cont hi ho'
+        simp only [need] at *
+        simpa using this
+      · intro hd
+        rcases hpost.doneD hd with hh | hh
+        · cases hh
+        · exact Or.inr hh
+      · intro _ _
+        have := hpost.mule; simp only [mu, sentOf, txW] at *; omega
+
+/-! ### the loops -/
+
+/-- what the inner rx loop guarantees -/
+structure RxLoopPost (P : Par) (R : Nat) (y al al' : AL) (rr : Bool) : Prop where
+  inv    : PInv P R y al'
+  flags  : (al'.pend && al'.fc) = false
+  out    : al'.out = al.out
+  tx     : al'.tx = al.tx
+  done   : al'.done = al.done
+  mule   : mu P al' ≤ mu P al
+  len    : al'.inbox.length ≤ al.inbox.length
+  strict : al.inbox ≠ [] → mu P al' < mu P al ∧ al'.inbox.length < al.inbox.length
+  rrT    : rr = true → al'.pend = false ∧ al'.fc = false
+  nil    : al.inbox = [] → al'.pend = false ∧ al'.fc = false ∧ rr = false
+
+theorem rxLoop_ok (hK : R ≤ P.kCf) : ∀ (items : List Fr) (al : AL), al.inbox = items → PInv P R y al →
+    al.pend = false → al.fc = false →
+    ∃ al' rr, absRxLoop P R al items = some (al', rr) ∧ RxLoopPost P R y al al' rr := by
+  intro items
+  induction items with
+  | nil =>
+    intro al hib h hp hf
+    unfold absRxLoop
+    rw [if_pos (cfOk_of_le hK _)]
+    have e : ({ al with inbox := [] } : AL) = al := by cases al; simp_all
+    rw [e]
+    exact ⟨al, false, rfl, ⟨h, by simp [hp], rfl, rfl, rfl, Nat.le_refl _, Nat.le_refl _,
+      fun hne => absurd hib hne, (fun hh => by cases hh), fun _ => ⟨hp, hf, rfl⟩⟩⟩
+  | cons it rest ih =>
+    intro al hib h hp hf
+    obtain ⟨al1, imm, e1, h1, i1, o1, t1, d1, himm, hfl, hmu⟩ := absRx_ok h hib hp hf hK
+    unfold absRxLoop
+    rw [e1]
+    simp only []
+    have hlen : al1.inbox.length < al.inbox.length := by rw [i1, hib]; simp
+    by_cases hi : imm = true
+    · rw [if_pos hi]
+      exact ⟨al1, false, rfl, ⟨h1, hfl, o1, t1, d1, Nat.le_of_lt hmu, Nat.le_of_lt hlen, fun _ => ⟨hmu, hlen⟩,
+        (fun hh => by cases hh), (fun hn => by rw [hib] at hn; cases hn)⟩⟩
+    · rw [if_neg hi]
+      have hi' : imm = false := by simpa using hi
+      have hpf : al1.pend = false ∧ al1.fc = false := by
+        rw [hi'] at himm
+        have := himm.symm
+        simpa [Bool.or_eq_false_iff] using this
+      by_cases htd : timeDriven al1.tx = true
+      · rw [if_pos htd]
+        exact ⟨al1, true, rfl, ⟨h1, hfl, o1, t1, d1, Nat.le_of_lt hmu, Nat.le_of_lt hlen, fun _ => ⟨hmu, hlen⟩,
+          fun _ => hpf, fun hn => by rw [hib] at hn; cases hn⟩⟩
+      · rw [if_neg htd]
+        obtain ⟨al2, rr, e2, p2⟩ := ih al1 i1 h1 hpf.1 hpf.2
+        refine ⟨al2, rr, e2, ⟨p2.inv, p2.flags, p2.out.trans o1, p2.tx.trans t1, p2.done.trans d1,
+          Nat.le_trans p2.mule (Nat.le_of_lt hmu), Nat.le_trans p2.len (Nat.le_of_lt hlen),
+          fun _ => ⟨Nat.lt_of_le_of_lt p2.mule hmu, Nat.lt_of_le_of_lt p2.len hlen⟩, p2.rrT,
+          fun hn => by rw [hib] at hn; cases hn⟩⟩
+
+/-- what the inner tx loop guarantees -/
+structure TxLoopPost (P : Par) (R : Nat) (y al al' : AL) (run : Bool) : Prop where
+  inv    : PInv P R y al'
+  pend   : al'.pend = false
+  fc     : al'.fc = false
+  inbox  : al'.inbox = al.inbox
+  mule   : mu P al' ≤ mu P al
+  notI   : al.pend = false → al'.tx ≠ .I
+  pcase  : al.pend = true → al'.tx = al.tx ∧ run = true ∧ al'.done = al.done
+  runT   : al.pend = false → run = true → timeDriven al'.tx = false ∧ (timeDriven al.tx = true ∨ al.fc = true)
+  keepT  : al.pend = false → timeDriven al'.tx = true → timeDriven al.tx = true ∨ al.fc = true
+  doneD  : al'.tx = .D → al.tx = .D ∨ al'.done = true
+  doneM  : al.done = true → al'.done = true
+  strict : al.pend = false → (al.tx = .I ∨ (∃ k j r, al.tx = .T k j r ∧ (P.z = true ∨ r < R)) ∨ al.fc = true) →
+             mu P al' < mu P al
+
+theorem need_pos (P : Par) (al : AL) : 1 ≤ need P al := by
+  unfold need
+  split
+  · omega
+  · split <;> (try split) <;> omega
+
+theorem need_pushOut (P : Par) (al : AL) (o : Option Fr) : need P (pushOut al o) = need P al := by
+  cases o <;> rfl
+
+theorem txLoop_ok (hK : R ≤ P.kFc) : ∀ (g : Nat) (al : AL), need P al ≤ g → PInv P R y al →
+    (al.pend && al.fc) = false →
+    ∃ al' run, absTxLoop P R g al = some (al', run) ∧ TxLoopPost P R y al al' run := by
+  intro g
+  induction g with
+  | zero => intro al hn _ _; have := need_pos P al; omega
+  | succ g ih =>
+    intro al hn h hpf
+    obtain ⟨al1, out, imm, e1, p1⟩ := absTx_ok h hpf hK
+    unfold absTxLoop
+    rw [e1]
+    simp only []
+    have hfc1 : (pushOut al1 out).fc = false := by
+      cases hp : al.pend with
+      | false => cases out <;> exact (p1.fc hp).1
+      | true =>
+        have : al.fc = false := by simpa [hp] using hpf
+        cases out <;> exact ((p1.pcase hp).1).trans this
+    have hpe1 : (pushOut al1 out).pend = false := by cases out <;> exact p1.pend
+    have hib1 : (pushOut al1 out).inbox = al.inbox := by cases out <;> exact p1.inbox
+    have htx1 : (pushOut al1 out).tx = al1.tx := by cases out <;> rfl
+    have hdn1 : (pushOut al1 out).done = al1.done := by cases out <;> rfl
+    have hmu1 : mu P (pushOut al1 out) ≤ mu P al := by rw [mu_pushOut]; exact p1.mule
+    by_cases hi : imm = true
+    · rw [if_pos hi]
+      refine ⟨_, true, rfl, ⟨p1.inv, hpe1, hfc1, hib1, hmu1, ?_, ?_, ?_, ?_, ?_, ?_, ?_⟩⟩
+      · intro hp; rw [htx1]; exact (p1.fc hp).2
+      · intro hp; rw [htx1, hdn1]; exact ⟨(p1.pcase hp).2.1, rfl, (p1.pcase hp).2.2.2⟩
+      · intro hp _; rw [htx1]; exact p1.immT hp hi
+      · intro hp ht; rw [htx1] at ht; exact p1.keepT hp ht
+      · intro hd; rw [htx1] at hd; rw [hdn1]; exact p1.doneD hd
+      · intro hd; rw [hdn1]; exact p1.doneM hd
+      · intro hp hs; rw [mu_pushOut]; exact p1.strict hp hs
+    · rw [if_neg hi]
+      have hi' : imm = false := by simpa using hi
+      have hp : al.pend = false := by
+        cases hp : al.pend with
+        | false => rfl
+        | true => have := (p1.pcase hp).2.2.1; rw [hi'] at this; cases this
+      by_cases ho : out.isSome = true
+      · rw [if_pos ho]
+        have hneed : need P (pushOut al1 out) ≤ g := by
+          rw [need_pushOut]; have := p1.cont hi' ho; omega
+        obtain ⟨al2, run, e2, p2⟩ := ih (pushOut al1 out) hneed p1.inv (by simp [hpe1])
+        refine ⟨al2, run, e2, ⟨p2.inv, p2.pend, p2.fc, p2.inbox.trans hib1, Nat.le_trans p2.mule hmu1, ?_, ?_, ?_, ?_, ?_,
+          ?_, ?_⟩⟩
+        · intro _; exact p2.notI hpe1
+        · intro hh; rw [hp] at hh; cases hh
+        · intro _ hr
+          obtain ⟨r1, r2⟩ := p2.runT hpe1 hr
+          refine ⟨r1, ?_⟩
+          rcases r2 with r2 | r2
+          · rw [htx1] at r2; exact p1.keepT hp r2
+          · rw [hfc1] at r2; cases r2
+        · intro _ ht
+          rcases p2.keepT hpe1 ht with r2 | r2
+          · rw [htx1] at r2; exact p1.keepT hp r2
+          · rw [hfc1] at r2; cases r2
+        · intro hd
+          rcases p2.doneD hd with r2 | r2
+          · rw [htx1] at r2
+            rcases p1.doneD r2 with r3 | r3
+            · exact Or.inl r3
+            · exact Or.inr (p2.doneM (by rw [hdn1]; exact r3))
+          · exact Or.inr r2
+        · intro hd; exact p2.doneM (by rw [hdn1]; exact p1.doneM hd)
+        · intro _ hs
+          have := p1.strict hp hs
+          have := p2.mule
+          rw [mu_pushOut] at this
+          omega
+      · rw [if_neg ho]
+        refine ⟨_, false, rfl, ⟨p1.inv, hpe1, hfc1, hib1, hmu1, ?_, ?_, ?_, ?_, ?_, ?_, ?_⟩⟩
+        · intro hp; rw [htx1]; exact (p1.fc hp).2
+        · intro hh; rw [hp] at hh; cases hh
+        · intro _ hh; cases hh
+        · intro hp ht; rw [htx1] at ht; exact p1.keepT hp ht
+        · intro hd; rw [htx1] at hd; rw [hdn1]; exact p1.doneD hd
+        · intro hd; rw [hdn1]; exact p1.doneM hd
+        · intro hp hs; rw [mu_pushOut]; exact p1.strict hp hs
+
+/-- the potential that bounds the number of iterations of the outer loop -/
+def psi (al : AL) : Nat :=
+  2 * al.inbox.length + (if al.tx = .I then 2 else 0) + (if timeDriven al.tx = true then 1 else 0)
+
+/-- the pass makes progress from `al` -/
+def Moves (P : Par) (R : Nat) (al : AL) : Prop :=
+  al.tx = .I ∨ al.inbox ≠ [] ∨ ∃ k j r, al.tx = .T k j r ∧ (P.z = true ∨ r < R)
+
+/-- what the outer loop (hence a whole `process()` call) guarantees -/
+structure PassPost (P : Par) (R : Nat) (y al al' : AL) : Prop where
+  inv    : PInv P R y al'
+  pend   : al'.pend = false
+  fc     : al'.fc = false
+  mule   : mu P al' ≤ mu P al
+  strict : Moves P R al → mu P al' < mu P al
+  doneD  : al'.tx = .D → al.tx = .D ∨ al'.done = true
+  doneM  : al.done = true → al'.done = true
+
+theorem psi_tI_le {al al' : AL} (h : al'.tx = .I → al.tx = .I) :
+    (if al'.tx = .I then 2 else 0) ≤ (if al.tx = .I then 2 else 0) := by
+  by_cases h1 : al'.tx = .I
+  · rw [if_pos h1, if_pos (h h1)]; exact Nat.le_refl 2
+  · rw [if_neg h1]; exact Nat.zero_le _
+
+theorem procLoop_ok (hKc : R ≤ P.kCf) (hKf : R ≤ P.kFc) : ∀ (f : Nat) (al : AL), psi al < f → PInv P R y al →
+    al.pend = false → al.fc = false →
+    ∃ al', absProcLoop P R f al = some al' ∧ PassPost P R y al al' := by
+  intro f
+  induction f with
+  | zero => intro al hf; omega
+  | succ f ih =>
+    intro al hpsi h hp hf
+    unfold absProcLoop
+    simp only []
+    cases hsw : (decide (al.tx = .I) && rxIdle al.rx) with
+    | true =>
+      simp only [Bool.not_true, Bool.false_eq_true, if_false, Bool.true_or, if_true]
+      have htx : al.tx = .I := by
+        have := hsw; simp only [Bool.and_eq_true, decide_eq_true_eq] at this; exact this.1
+      obtain ⟨al2, run, e2, p2⟩ := txLoop_ok hKf (txNeed P al.tx) al (need_le_txNeed P al h) h (by simp [hp])
+      rw [e2]
+      simp only []
+      have hnT : timeDriven al2.tx = false := by
+        cases ht : timeDriven al2.tx with
+        | false => rfl
+        | true =>
+          rcases p2.keepT hp ht with r | r
+          · rw [htx] at r; cases r
+          · rw [hf] at r; cases r
+      have hpsi2 : psi al2 < f := by
+        unfold psi at *
+        rw [p2.inbox, hnT, if_neg (p2.notI hp)]
+        rw [htx] at hpsi
+        simp only [if_true, timeDriven] at hpsi
+        simp only [Bool.false_eq_true, if_false]
+        omega
+      obtain ⟨al3, e3, p3⟩ := ih al2 hpsi2 p2.inv p2.pend p2.fc
+      refine ⟨al3, e3, ⟨p3.inv, p3.pend, p3.fc, Nat.le_trans p3.mule p2.mule, ?_, ?_, ?_⟩⟩
+      · intro _
+        have := p2.strict hp (Or.inl htx)
+        have := p3.mule
+        omega
+      · intro hd
+        rcases p3.doneD hd with r | r
+        · rcases p2.doneD r with r' | r'
+          · exact Or.inl r'
+          · exact Or.inr (p3.doneM r')
+        · exact Or.inr r
+      · intro hd; exact p3.doneM (p2.doneM hd)
+    | false =>
+      simp only [Bool.not_false, if_true, Bool.false_or]
+      obtain ⟨al1, rxRun, e1, p1⟩ := rxLoop_ok hKc al.inbox al rfl h hp hf
+      rw [e1]
+      simp only []
+      obtain ⟨al2, run, e2, p2⟩ := txLoop_ok hKf (txNeed P al1.tx) al1 (need_le_txNeed P al1 p1.inv) p1.inv p1.flags
+      rw [e2]
+      simp only []
+      have hmu2 : mu P al2 ≤ mu P al := Nat.le_trans p2.mule p1.mule
+      have hstrict : Moves P R al → mu P al2 < mu P al := by
+        intro hm
+        by_cases hne : al.inbox = []
+        · obtain ⟨q1, q2, q3⟩ := p1.nil hne
+          have hs : al1.tx = .I ∨ (∃ k j r, al1.tx = .T k j r ∧ (P.z = true ∨ r < R)) ∨ al1.fc = true := by
+            rw [p1.tx]
+            rcases hm with hm | hm | hm
+            · exact Or.inl hm
+            · exact absurd hne hm
+            · exact Or.inr (Or.inl hm)
+          have := p2.strict q1 hs
+          have := p1.mule
+          omega
+        · have := (p1.strict hne).1
+          have := p2.mule
+          omega
+      have hdoneD : al2.tx = .D → al.tx = .D ∨ al2.done = true := by
+        intro hd
+        rcases p2.doneD hd with r | r
+        · rw [p1.tx] at r; exact Or.inl r
+        · exact Or.inr r
+      have hdoneM : al.done = true → al2.done = true := by
+        intro hd; exact p2.doneM (by rw [p1.done]; exact hd)
+      by_cases hgo : (rxRun || run) = true
+      · rw [if_pos hgo]
+        have hI : al2.tx = .I → al.tx = .I := by
+          intro h2
+          cases hp1 : al1.pend with
+          | false => exact absurd h2 (p2.notI hp1)
+          | true => rw [← p1.tx, ← (p2.pcase hp1).1]; exact h2
+        have hpsi2 : psi al2 < f := by
+          have hti := psi_tI_le hI
+          unfold psi at *
+          rw [p2.inbox]
+          by_cases hne : al.inbox = []
+          · obtain ⟨q1, q2, q3⟩ := p1.nil hne
+            subst q3
+            have hrun : run = true := by simpa using hgo
+            obtain ⟨r1, r2⟩ := p2.runT q1 hrun
+            have hT : timeDriven al.tx = true := by
+              rcases r2 with r2 | r2
+              · rw [p1.tx] at r2; exact r2
+              · rw [q2] at r2; cases r2
+            have hl := p1.len
+            rw [r1]
+            rw [hT] at hpsi
+            simp only [Bool.false_eq_true, if_false, if_true] at *
+            omega
+          · have hl := (p1.strict hne).2
+            have : (if timeDriven al2.tx = true then 1 else 0) ≤ 1 := by split <;> omega
+            omega
+        obtain ⟨al3, e3, p3⟩ := ih al2 hpsi2 p2.inv p2.pend p2.fc
+        refine ⟨al3, e3, ⟨p3.inv, p3.pend, p3.fc, Nat.le_trans p3.mule hmu2, ?_, ?_, ?_⟩⟩
+        · intro hm
+          have := hstrict hm
+          have := p3.mule
+          omega
+        · intro hd
+          rcases p3.doneD hd with r | r
+          · rcases hdoneD r with r' | r'
+            · exact Or.inl r'
+            · exact Or.inr (p3.doneM r')
+          · exact Or.inr r
+        · intro hd; exact p3.doneM (hdoneM hd)
+      · rw [if_neg hgo]
+        exact ⟨al2, rfl, ⟨p2.inv, p2.pend, p2.fc, hmu2, hstrict, hdoneD, hdoneM⟩⟩
+
+/-- **a whole `process()` call of the abstract machine** succeeds, keeps the invariant, does not increase the
+    potential — and decreases it when there is something to do -/
+theorem pass_ok (hKc : R ≤ P.kCf) (hKf : R ≤ P.kFc) (h : PInv P R y { al with out := [], done := false })
+    (hp : al.pend = false) (hf : al.fc = false) :
+    ∃ al', absPass P R al = some al' ∧ PassPost P R y { al with out := [], done := false } al' := by
+  unfold absPass
+  refine procLoop_ok hKc hKf _ _ ?_ h hp hf
+  unfold psi absFuel
+  simp only []
+  have : (if timeDriven al.tx = true then 1 else 0) ≤ 1 := by split <;> omega
+  split <;> omega
 
 end steps
 
